@@ -37,6 +37,27 @@ CLAIMED = {
          "min(n, available), blank the vacated rows and return the cursor to column 0; and that set_margins accepts exactly regions of >= 2 rows "
          "after clamping, homes the cursor (DECOM-aware) and is removed by `CSI r`.",
     design="5 C06", technique="Verus contracts + row-shift loop invariants on the verbatim bodies"),
+ 'C12': dict(
+    text="Deductive proof on the verbatim set_mode/reset_mode that the stored mode set becomes old U / \\ {n<<5 if private else n : n in list} for every list "
+         "of numbers <= 65535 (not a table of the supported ones), that a list containing none of DECCOLM/DECOM/DECSCNM/DECTCEM (after shifting) changes "
+         "nothing but the mode set, and that each supported mode has exactly its documented side effect: DECTCEM hidden flag; DECOM homes (region-aware); "
+         "DECSCNM sets/clears reverse on every observable cell incl. never-written ones, on the current rendition, and marks all rows dirty; DECCOLM "
+         "saves/restores the width, resizes, erases every cell with the current rendition and homes. IRM/LNM/DECAWM are read by draw/linefeed (linefeed's LNM clause is proved; draw is C04).",
+    design="5 C12", technique="Verus contracts on the verbatim bodies; iterator-adapter expressions called out to 7 trusted one-line shims; SGR 7/27 effect assumed",
+    note="As the general note, plus: select_graphic_rendition is NOT verified (C08 n/a): its effect for [7]/[27] (reverse on/off on the current rendition only) is an assumed contract. "
+         "The shims vec_from_slice/slice_map_collect/vec_any_eq/hs_extend_vec/hs_minus_vec/buffer_set_reverse/hs_extend_range are trusted one-liners whose bodies are the original expressions. Termination of the set_mode->resize->restore_cursor->set_mode cycle is proved with decreases clauses."),
+ 'C14': dict(
+    text="Deductive proof that save_cursor pushes an exact snapshot (position, rendition, visibility, G0/G1/shift state, DECOM/DECAWM flags) and changes nothing else, and that "
+         "restore_cursor pops the last entry, reinstates it with the position clamped into the current screen/region, re-enables DECOM/DECAWM iff saved, and on an empty stack homes "
+         "and clears DECOM; neither touches cells, margins, tab stops or dirty rows. LIFO order for nested saves is the Seq push/drop_last algebra of these two contracts plus the "
+         "frame clause `savepoints unchanged` carried by every other operation under contract (resize proves it although it pushes and pops internally).",
+    design="5 C14", technique="Verus contracts (Seq push / drop_last view of the savepoint stack) on the verbatim bodies"),
+ 'C16': dict(
+    text="Deductive proof on the verbatim resize(): same size is a complete no-op (every component, incl. dirty); otherwise every cell of the new grid equals the old cell shifted by "
+         "max(old_lines-new_lines,0) rows where it overlaps and is blank elsewhere, the region is reset, dirty is exactly the rows of the new screen, savepoints/modes/rendition are unchanged, "
+         "and the representation invariant holds again (cursor inside, nothing stored outside the new grid) -- the last item is what makes 'discarded content never reappears on a later grow' "
+         "a per-call obligation. All sizes 1..65535 in both dimensions, all pre-states (margins, DECOM, pending wrap).",
+    design="5 C16", technique="Verus contract on the verbatim body (2 trusted shims: values_mut column trim, tuple assignment split) using the contracts of delete_lines/save/restore"),
 }
 NA = {}
 checks = []
